@@ -742,3 +742,194 @@ Proof.
   - inversion H; subst. cbn in Hk. discriminate.
   - inversion H; subst. cbn in Hk. discriminate.
 Qed.
+
+(** * 5. Per-action corollaries *)
+Theorem set_last_wins c idn s a raw ti st st' pr :
+  wf_m (mt st) -> ~ In (a_id a) (groups_for_arg c (a_id a)) -> a_get_action a = ASet ->
+  react_core c idn s a raw ti st = ROk (st', pr) ->
+  exists vals, occ_values c a raw ti = Some vals /\ groups_of (a_id a) (mt st') = Some [vals].
+Proof.
+  intros Hwf Hng Ea H. destruct (react_core_spec _ _ _ _ _ _ _ _ _ Hwf Hng H) as [vals [Ho [_ [_ [G _]]]]].
+  exists vals. split; [exact Ho|]. rewrite G. unfold step_self. rewrite Ea. reflexivity.
+Qed.
+
+Theorem append_in_order c idn s a raw ti st st' pr :
+  wf_m (mt st) -> ~ In (a_id a) (groups_for_arg c (a_id a)) -> a_get_action a = AAppend ->
+  react_core c idn s a raw ti st = ROk (st', pr) ->
+  exists vals, occ_values c a raw ti = Some vals /\
+    groups_of (a_id a) (mt st') = Some (opt_default [] (own_prev c s a (groups_of (a_id a) (mt st))) ++ [vals]) /\
+    (forall j, j <> a_id a -> ~ In j (groups_for_arg c (a_id a)) ->
+       get j (mt st') = if is_cmdline s && overridden c a j then None else get j (mt st)).
+Proof.
+  intros Hwf Hng Ea H. destruct (react_core_spec _ _ _ _ _ _ _ _ _ Hwf Hng H) as [vals [Ho [_ [_ [G [F _]]]]]].
+  exists vals. split; [exact Ho|]. split; [|exact F]. rewrite G. unfold step_self. rewrite Ea. reflexivity.
+Qed.
+
+(** the source recorded by a Set-like occurrence is the occurrence's source *)
+Theorem set_like_source c idn s a raw ti st st' pr :
+  wf_m (mt st) -> ~ In (a_id a) (groups_for_arg c (a_id a)) -> set_family a = true ->
+  react_core c idn s a raw ti st = ROk (st', pr) ->
+  exists ma, get (a_id a) (mt st') = Some ma /\ m_source ma = Some s.
+Proof.
+  intros Hwf Hng Hf H. rewrite react_core_unfold in H.
+  destruct (if is_cmdline s then verify_num_args c a raw st else ROk tt) as [[]|e0 st0|site]; cbn [rbind] in H; try discriminate.
+  destruct (occ_values c a raw ti) as [vals|]; cbn [expect rbind] in H; [|discriminate].
+  unfold react_action in H. unfold set_family in Hf.
+  destruct (a_get_action a); try discriminate;
+    destruct (set_like_spec _ _ _ _ _ _ _ _ _ Hwf Hng H) as [_ [_ [_ [S _]]]]; exact S.
+Qed.
+
+Lemma delimit_nil c a ti : delimit c a [] ti = Some [].
+Proof.
+  unfold delimit. destruct (a_delim a); [|reflexivity].
+  destruct (is_set s_dont_delimit_trailing c && match ti with Some 0 => true | _ => false end); reflexivity.
+Qed.
+Lemma occ_values_nil c a ti : a_default_missing a = [] -> occ_values c a [] ti = Some [].
+Proof. intros H. unfold occ_values. rewrite H. cbn [is_nil negb]. apply delimit_nil. Qed.
+Lemma occ_values_nodelim c a raw ti : a_delim a = None -> raw <> [] -> occ_values c a raw ti = Some raw.
+Proof. intros Hd Hr. unfold occ_values, delimit. destruct raw; [contradiction|]. rewrite Hd. reflexivity. Qed.
+Lemma occ_values_dmissing c a ti : a_delim a = None -> a_default_missing a <> [] ->
+  occ_values c a [] ti = Some (a_default_missing a).
+Proof. intros Hd Hr. unfold occ_values, delimit. destruct (a_default_missing a); [contradiction|]. cbn. rewrite Hd. reflexivity. Qed.
+
+(** SetTrue / SetFalse: the stored value of an occurrence of the bare flag *)
+Definition flag_value (b : bool) : bytes := if b then s_true else s_false.
+Definition flag_action (b : bool) : action := if b then ASetTrue else ASetFalse.
+
+Theorem flag_truth c idn s a ti st st' pr b :
+  wf_m (mt st) -> ~ In (a_id a) (groups_for_arg c (a_id a)) ->
+  a_get_action a = flag_action b -> a_delim a = None ->
+  (a_default_missing a = [] \/ a_default_missing a = [flag_value b]) ->
+  react_core c idn s a [] ti st = ROk (st', pr) ->
+  exists ma, get (a_id a) (mt st') = Some ma /\ m_raw ma = [[flag_value b]] /\ m_source ma = Some s.
+Proof.
+  intros Hwf Hng Ea Hd Hdm H.
+  assert (Hf : set_family a = true) by (unfold set_family; rewrite Ea; destruct b; reflexivity).
+  destruct (set_like_source _ _ _ _ _ _ _ _ _ Hwf Hng Hf H) as [ma [Gm Sm]].
+  destruct (react_core_spec _ _ _ _ _ _ _ _ _ Hwf Hng H) as [vals [Ho [_ [_ [G _]]]]].
+  exists ma. split; [exact Gm|]. split; [|exact Sm].
+  unfold groups_of in G. rewrite Gm in G. cbn [opt_map] in G. inversion G as [G']. clear G.
+  rewrite G'. unfold step_self. rewrite Ea.
+  destruct Hdm as [Hdm|Hdm].
+  - rewrite occ_values_nil in Ho by exact Hdm. inversion Ho; subst vals. destruct b; reflexivity.
+  - rewrite occ_values_dmissing in Ho; [|exact Hd|rewrite Hdm; discriminate]. rewrite Hdm in Ho. inversion Ho; subst vals.
+    destruct b; reflexivity.
+Qed.
+
+(** [Arg::_build] installs the opposite default and the truth value as default-missing *)
+Theorem flag_build_defaults a0 b :
+  a_action a0 = Some (flag_action b) -> a_default a0 = [] -> a_default_missing a0 = [] ->
+  a_get_action (arg_build a0) = flag_action b /\
+  a_default (arg_build a0) = [flag_value (negb b)] /\
+  a_default_missing (arg_build a0) = [flag_value b] /\
+  a_id (arg_build a0) = a_id a0 /\ a_delim (arg_build a0) = a_delim a0 /\
+  (a_vp a0 = None -> a_vp (arg_build a0) = Some VPBool).
+Proof.
+  intros Ha Hd Hm. destruct a0. cbn in Ha, Hd, Hm. subst.
+  unfold arg_build, ab_num, ab_vp, ab_dmissing, ab_default, ab_action, a_get_action.
+  destruct b; cbn; (destruct a_vp; destruct a_num; cbn; try destruct (1 <? a_nvalnames); cbn;
+    repeat split; try reflexivity; try discriminate; intros; try discriminate).
+Qed.
+
+(** the default phase: [add_default_value] never overwrites an entry, and otherwise is one
+    [react] with source [DefaultValue] *)
+Theorem add_default_value_present c a st :
+  a_default_ifs a = [] -> mt_contains (mt st) (a_id a) = true -> add_default_value c a st = ROk st.
+Proof.
+  intros Hi Hc. unfold add_default_value. rewrite Hi, Hc. cbn [is_nil negb andb].
+  destruct (negb (is_nil (a_default a))); reflexivity.
+Qed.
+Theorem add_default_value_absent c a st :
+  a_default_ifs a = [] -> a_default a <> [] -> mt_contains (mt st) (a_id a) = false ->
+  add_default_value c a st = (do x <- react c None SDefault a (a_default a) None st; ROk (fst x)).
+Proof.
+  intros Hi Hd Hc. unfold add_default_value. rewrite Hi, Hc. cbn [is_nil negb andb].
+  destruct (a_default a); [contradiction|reflexivity].
+Qed.
+
+(** ** Count *)
+Definition upto256 : list N := map N.of_nat (seq 0 256).
+Lemma in_upto256 k : k <= 255 -> In k upto256.
+Proof.
+  intros H. unfold upto256. rewrite <- (N2Nat.id k). apply in_map. apply in_seq. lia.
+Qed.
+Lemma dec_sweep :
+  forallb (fun k => match parse_i64 (n_to_dec k) with Some z => (z =? Z.of_N k)%Z | None => false end
+                    && match vp_parse VPCount (n_to_dec k) with None => true | Some _ => false end) upto256 = true.
+Proof. vm_compute. reflexivity. Qed.
+Lemma dec_roundtrip k : k <= 255 -> parse_i64 (n_to_dec k) = Some (Z.of_N k).
+Proof.
+  intros H. pose proof dec_sweep as S. rewrite forallb_forall in S. specialize (S k (in_upto256 k H)).
+  apply andb_true_iff in S. destruct S as [S _]. destruct (parse_i64 (n_to_dec k)); [|discriminate].
+  apply Z.eqb_eq in S. subst. reflexivity.
+Qed.
+Lemma dec_accept k : k <= 255 -> vp_parse VPCount (n_to_dec k) = None.
+Proof.
+  intros H. pose proof dec_sweep as S. rewrite forallb_forall in S. specialize (S k (in_upto256 k H)).
+  apply andb_true_iff in S. destruct S as [_ S]. destruct (vp_parse VPCount (n_to_dec k)); [discriminate|reflexivity].
+Qed.
+
+(** the abstract counter: what the entry of a Count flag holds after [k] occurrences *)
+Definition enc (k : N) : option groups := if k =? 0 then None else Some [[n_to_dec (N.min k 255)]].
+Lemma count_of_enc k : count_of (enc k) = N.min k 255.
+Proof.
+  unfold enc. destruct (k =? 0) eqn:E; [apply N.eqb_eq in E; subst; reflexivity|].
+  cbn [count_of concat app]. rewrite dec_roundtrip by lia. apply N2Z.id.
+Qed.
+Lemma enc_succ k : Some [[n_to_dec (N.min 255 (count_of (enc k) + 1))]] = enc (k + 1).
+Proof.
+  rewrite count_of_enc. unfold enc. destruct (k + 1 =? 0) eqn:E; [apply N.eqb_eq in E; lia|].
+  replace (N.min 255 (N.min k 255 + 1)) with (N.min (k + 1) 255) by lia. reflexivity.
+Qed.
+
+(** a Count flag as [Arg::_build] leaves it *)
+Definition count_flag (a : arg) : Prop :=
+  a_get_action a = ACount /\ a_vp a = Some VPCount /\ a_default_missing a = [] /\ a_num a = Some r_empty.
+
+Theorem count_build a0 :
+  a_action a0 = Some ACount -> a_vp a0 = None -> a_default_missing a0 = [] -> a_num a0 = None -> a_nvalnames a0 <= 1 ->
+  count_flag (arg_build a0) /\ a_id (arg_build a0) = a_id a0 /\ (a_default a0 = [] -> a_default (arg_build a0) = [[48]]).
+Proof.
+  intros Ha Hv Hm Hn Hk. destruct a0. cbn in Ha, Hv, Hm, Hn, Hk. subst.
+  unfold count_flag, arg_build, ab_num, ab_vp, ab_dmissing, ab_default, ab_action, a_get_action. cbn.
+  assert (E : (1 <? a_nvalnames) = false) by (apply N.ltb_ge; exact Hk).
+  destruct (is_nil a_default) eqn:Ed; cbn; rewrite E; cbn; repeat split; try reflexivity;
+    intros Hd; subst; cbn in Ed; try discriminate; reflexivity.
+Qed.
+
+Lemma verify_num_args_flag c a st : a_num a = Some r_empty -> verify_num_args c a [] st = ROk tt.
+Proof. intros H. unfold verify_num_args. rewrite H. destruct (is_set s_ignore_errors c); reflexivity. Qed.
+
+(** one occurrence of a Count flag always succeeds and stores the saturated successor *)
+Theorem count_step c idn s a ti st :
+  wf_m (mt st) -> ~ In (a_id a) (groups_for_arg c (a_id a)) -> count_flag a ->
+  exists st', react_core c idn s a [] ti st = ROk (st', PRValuesDone) /\
+    wf_m (mt st') /\ mt_pending (mt st') = mt_pending (mt st) /\
+    groups_of (a_id a) (mt st') = Some [[n_to_dec (N.min 255 (count_of (groups_of (a_id a) (mt st)) + 1))]] /\
+    (forall j, j <> a_id a -> ~ In j (groups_for_arg c (a_id a)) ->
+       get j (mt st') = if is_cmdline s && overridden c a j then None else get j (mt st)).
+Proof.
+  intros Hwf Hng [Ea [Evp [Edm En]]].
+  assert (Hok : exists st', react_core c idn s a [] ti st = ROk (st', PRValuesDone)).
+  { rewrite react_core_unfold. rewrite (verify_num_args_flag c a st En).
+    assert (Hv : (if is_cmdline s then ROk tt else ROk tt) = @ROk unit tt) by (destruct (is_cmdline s); reflexivity).
+    rewrite Hv. cbn [rbind]. rewrite (occ_values_nil c a ti Edm). cbn [expect rbind].
+    unfold react_action. rewrite Ea.
+    set (v := n_to_dec (N.min 255 (existing_count a (mt st) + 1))).
+    pose proof (mt_remove_wf (mt st) (a_id a) Hwf) as W1.
+    destruct (mt_remove (mt st) (a_id a)) as [m1 removed]. cbn [fst] in W1.
+    destruct (start_custom_arg_spec c a s m1 W1) as [m2 [E2 [W2 [P2 [G2 F2]]]]].
+    rewrite E2. cbn [rbind]. specialize (G2 Hng).
+    rewrite <- (set_mt_mt st m2) in W2, G2.
+    set (ma0 := opt_default (marg_new (a_ignore_case a) false) (own_prev c s a (get (a_id a) m1))) in *.
+    assert (R2 : m_raw (new_val_group (set_source s ma0)) = m_raw ma0 ++ [[]]) by (destruct ma0; reflexivity).
+    assert (Hall : Forall (fun x => vp_parse VPCount x = None) [v]).
+    { constructor; [|constructor]. apply dec_accept. lia. }
+    destruct (push_arg_values_ok c a VPCount Evp [v] _ _ _ _ Hall W2 G2 R2) as [st' E'].
+    rewrite E'. cbn [rbind]. exists st'. reflexivity. }
+  destruct Hok as [st' H]. exists st'. split; [exact H|].
+  destruct (react_core_spec _ _ _ _ _ _ _ _ _ Hwf Hng H) as [vals [Ho [W [P [G [F _]]]]]].
+  rewrite occ_values_nil in Ho by exact Edm. inversion Ho; subst.
+  split; [exact W|]. split; [exact P|]. split; [|exact F].
+  rewrite G. unfold step_self. rewrite Ea. reflexivity.
+Qed.
